@@ -84,6 +84,8 @@ type c17Req struct {
 type c17Input struct {
 	Bugs  []c17SBug `json:"bugs"`
 	Steps []c17Req  `json:"steps"`
+	// LogErrors builds the handler the way `webui --log-errors` does: with an error writer, which installs the tracer
+	LogErrors bool `json:"log_errors,omitempty"`
 }
 
 var c17Known = map[string]string{
@@ -1196,6 +1198,9 @@ func (c17Driver) Run(raw json.RawMessage) Case {
 	if err != nil {
 		return Case{Skip: "open: " + err.Error()}
 	}
+	if in.LogErrors {
+		s.gql = graphql.NewHandler(s.mrc, io.Discard)
+	}
 	if err := s.introspect(); err != nil {
 		// a served schema that cannot be introspected is a broken correspondence, not a skip
 		panic(err)
@@ -1412,6 +1417,9 @@ func (c17Driver) Run(raw json.RawMessage) Case {
 			nontrivial = true
 		}
 	}
+	if in.LogErrors {
+		tags = append(tags, "handler:log-errors")
+	}
 	return Case{Coq: term, Obs: obs, Tags: tags, NonTrivial: nontrivial, Key: string(raw)}
 }
 
@@ -1599,6 +1607,7 @@ func (c17Driver) Gen(r *Rand, tier string) []json.RawMessage {
 					seen[v] = true
 					in.Steps = append(in.Steps, c17GenReq(r, f, a, v))
 				}
+				in.LogErrors = len(res)%3 == 1
 				res = append(res, mustJSON(in))
 			}
 		}
@@ -1627,6 +1636,7 @@ func (c17Driver) Gen(r *Rand, tier string) []json.RawMessage {
 			}
 			in.Steps = append(in.Steps, c17GenReq(r, f, a, v))
 		}
+		in.LogErrors = i%3 == 1
 		res = append(res, mustJSON(in))
 	}
 	return res
